@@ -8,7 +8,7 @@ import random
 
 from . import coregen
 
-SEP, LB, RB, NL = "\x03", "\x04", "\x05", "\x06"
+SEP, LB, RB, NL, COMMA = "\x03", "\x04", "\x05", "\x06", "\x07"
 
 
 class EG:
@@ -36,8 +36,10 @@ class EG:
             return {"k": "int", "v": r.randint(0, 9)} if (not env or r.random() < 0.5) else {"k": "id", "n": r.choice(env)}
         if c < 0.7:
             return {"k": "bin", "op": r.choice(["+", "-", "*"]), "l": self.iexpr(env, d - 1), "r": self.iexpr(env, d - 1)}
-        if c < 0.85:
+        if c < 0.80:
             return self.call(r.choice(["h1", "h2"]), [self.iexpr(env, d - 1)])
+        if c < 0.85:
+            return self.call("h3", [self.iexpr(env, d - 1), self.iexpr(env, d - 1)])
         return {"k": "tern", "c": {"k": "bin", "op": "<", "l": self.iexpr(env, 0), "r": self.iexpr(env, 0)}, "t": self.iexpr(env, d - 1), "f": self.iexpr(env, d - 1)}
 
     def filler(self, env, d=1):
@@ -75,8 +77,10 @@ class EG:
             st = [{"k": "var", "n": self.fresh("y"), "e": site_expr}]
         elif c < 0.46:
             st = [self.out(site_expr)]
-        elif c < 0.56:
+        elif c < 0.50:
             st = [{"k": "expr", "e": self.call("h1", [site_expr])}]
+        elif c < 0.56:
+            st = [{"k": "expr", "e": self.call("h3", [self.iexpr(env, 1), site_expr])}]        # after a comma: possibly on a continuation line
         elif c < 0.68:
             st = [{"k": "var", "n": self.fresh("y"), "e": {"k": "bin", "op": "+", "l": self.iexpr(env, 1), "r": site_expr}}]
         elif c < 0.76 and self.infun:
@@ -141,6 +145,8 @@ class EG:
         one = lambda n, b: {"k": "def", "n": n, "params": [{"n": "a", "ty": ""}], "guarded": False, "guard": {"k": "bool", "v": True}, "b": b}
         helpers = [one("h1", [{"k": "expr", "e": {"k": "bin", "op": "+", "l": {"k": "id", "n": "a"}, "r": {"k": "int", "v": 1}}}]),
                    one("h2", [{"k": "var", "n": "t", "e": {"k": "bin", "op": "*", "l": {"k": "id", "n": "a"}, "r": {"k": "int", "v": 2}}}, {"k": "expr", "e": {"k": "id", "n": "t"}}]),
+                   {"k": "def", "n": "h3", "params": [{"n": "a", "ty": ""}, {"n": "b", "ty": ""}], "guarded": False, "guard": {"k": "bool", "v": True},
+                    "b": [{"k": "expr", "e": {"k": "bin", "op": "-", "l": {"k": "id", "n": "a"}, "r": {"k": "id", "n": "b"}}}]},
                    {"k": "def", "n": "tf", "params": [{"n": "x", "ty": "int"}], "guarded": False, "guard": {"k": "bool", "v": True}, "b": [{"k": "expr", "e": {"k": "id", "n": "x"}}]}]
         chunks = [[] for _ in range(nchunks)]
         chunks[0] += helpers
@@ -174,7 +180,7 @@ COMMENTS = ["// note", "// a // b", "//", "# anno", "/* c */", "/* two\nlines */
 def layout(prog, rnd, mode):
     """prints a chunk and lays it out.  mode: 'lf' | 'crlf' | 'mixed'.  Returns (text, {lab: (line, col)})"""
     saved = dict(coregen.LAYOUT)
-    coregen.LAYOUT.update({"sep": SEP, "lb": LB, "rb": RB, "nl": NL})
+    coregen.LAYOUT.update({"sep": SEP, "lb": LB, "rb": RB, "nl": NL, "comma": COMMA})
     try:
         raw = coregen.program_text(prog)
     finally:
@@ -218,6 +224,9 @@ def layout(prog, rnd, mode):
             continue
         if ch in (SEP, NL):
             out.append(sep())
+        elif ch == COMMA:
+            # an argument list may continue on the next line
+            out.append(rnd.choice([", ", ", ", ",", "," + nl() + indent(), ", " + nl() + indent() + " ", ", // arg" + nl() + indent()]))
         elif ch == LB:
             out.append(rnd.choice(["{ ", "{", "{" + nl() + indent(), "{ " + comment_line().split("\n")[0].replace("/* c */", "// c").replace("/* two", "// two").replace("/* a", "// a") + nl() + indent()]))
         elif ch == RB:
